@@ -118,7 +118,8 @@ def simulate(sc, n, seed, procs):
         env = dict(os.environ)
         env.setdefault("JAVA_TOOL_OPTIONS", "-Xmx2g -XX:ParallelGCThreads=2")
         env["OUT_DIR"] = o
-        cmd = ["timeout", "1500", "tlc", "-workers", "1", "-metadir", meta, "-config", "SchedulerSim.cfg",
+        # every other process generates behaviours with 3 ids (all ways of sharing 2 workers)
+        cmd = ["timeout", "1500", "tlc", "-workers", "1", "-metadir", meta, "-config", "SchedulerSim.cfg" if k % 2 == 0 else "SchedulerSim3.cfg",
                "-simulate", "num=%d" % per, "-depth", "400", "-seed", str(seed * 1000 + k), "SchedulerSim.tla"]
         with V.tlc_slots(1):
             r = subprocess.run(cmd, cwd=d, env=env, capture_output=True, text=True)
